@@ -6,6 +6,7 @@ pub mod c08;
 pub mod c08_tok;
 pub mod c16;
 pub mod c12;
+pub mod c12_more;
 pub mod c20;
 pub mod c06;
 pub mod c09;
